@@ -32,7 +32,7 @@ ENGINES["tasksim"] = {
 }
 
 ENGINES["treesim"] = {
-    "serves": ["C01", "C06", "C09"],
+    "serves": ["C01", "C02", "C06", "C09"],
     "kind": "single-goroutine event loop over 2-4 real sync-tree replicas with a simulated network (message multiset, ordered response streams), crash/restart, seeded fates",
     "real_vs_stub": {"real": ["objecttree (verifying change builder, validator, Tree, treeBuilder, reduce, loadIterator, storage)",
                               "synctree (syncTree, syncHandler, requestFactory, InnerHeadUpdate, response producer/collector, treeRemoteGetter)",
@@ -60,6 +60,24 @@ PROPS = {
                       "after every event, convergence (equal heads and stored sets = union of created changes) after faults stop and a fair anti-entropy phase.",
         "level_note": "real tree/sync/ACL/storage code; network and scheduling are simulated; liveness asserted only after faults stop",
         "expected_probes": [],
+    },
+    "C02": {
+        "engine": "treesim",
+        "level": "exploration",
+        "budget": {"quick": 60, "thorough": 900},
+        "rule": "one run = 2-4 real replicas of one unencrypted tree and a scripted ACL history of 3-9 records (replica accounts and two extra accounts added as writer/reader, re-permissioned, removed with key rotation, re-added) "
+                "that reaches every replica record by record at seeded points, so changes can arrive before the record they cite. Besides the C01 schedule faults, two byzantine fault kinds: "
+                "(a) one of 11 structure-aware mutations of a change inside a head update in flight (payload/signature/content byte flips with and without recomputed id, foreign id, author swapped with and without re-signing, cited ACL record re-pointed with and without re-signing, parents edited, signature stripped, timestamp edited); "
+                "(b) a byzantine author holding every account's key builds well-formed signed changes on a donor replica's heads for any account and any (also unknown) cited record and sends them to a victim. "
+                "Oracles: reference predicate from the property text (id = CID(bytes); signature verifies under the named identity; that identity is a writer at the cited record per the harness's own scripted timeline; cited record index >= every parent's; cited record held by the replica) "
+                "evaluated on every stored change of the touched replica after every delivery; stored bytes must equal the ground-truth bytes; a delivery rejected with an error leaves heads, IterateRoot sequence and stored set unchanged; "
+                "at the end all ACL records arrive, the network drains and the predicate is re-evaluated everywhere. evaluations = (replica, change) admissibility judgements. ~10% of runs have no byzantine faults.",
+        "assumptions": COMMON_ASSUMPTIONS + ["the scripted permission timeline (none/reader/writer per record and account) is computed by the harness from the script, not read from the ACL implementation",
+                                             "Ed25519 verification and CID computation are trusted primitives", "safety only: no convergence claim under byzantine input (C01 covers honest convergence)"],
+        "technique": "deterministic simulation: seeded schedules with lagging ACL delivery, in-flight structure-aware corruption and a byzantine author over real replicas; reference-predicate oracle on every stored change, unchanged-state oracle on every rejected delivery",
+        "level_text": "Seeded exploration of message/ACL schedules with byzantine fault kinds; an independent reference predicate decides admissibility of every stored change on every replica after every delivery, and rejected deliveries must leave state untouched.",
+        "level_note": "real tree/sync/ACL/storage code; byzantine inputs are built by the harness from the protobuf types; primitives (Ed25519, CID) trusted",
+        "expected_probes": ["byz-admissible-built", "byz-inadmissible-built", "byz-admissible-accepted", "delivery-rejected"],
     },
     "C06": {
         "engine": "treesim",
